@@ -475,6 +475,10 @@ def checkBuild (params lines : List String) : CaseResult := Id.run do
   let mut pi := 0
   for ln in lines do
     match words ln with
+    | ["again", "changed", b] =>
+      if b == "1" then
+        r := { r with specs := "earlier_definitions_changed_by_later_build: the definitions a builder has returned changed when the same builder went on to build the next one" :: r.specs }
+    | "again" :: "panic" :: rest => r := { r with specs := s!"builder_reuse_panics: {" ".intercalate rest}" :: r.specs }
     | ["rt", "same", _] => pure ()
     | "rt" :: "differ" :: _ =>
       let back := (lines.filter (·.startsWith "r ")).map (fun s => (s.drop 2).toString)
